@@ -143,6 +143,7 @@ def eq_vals(a, b):
         return a == b
     if isinstance(a, bytes) and isinstance(b, bytes): return a == b
     if isinstance(a, Arr) and isinstance(b, Arr):
+        if a is b: return True          # one and the same array object (whatever it holds, unset slots included)
         if len(a.v) != len(b.v): return False
         r = True
         for x, y in zip(a.v, b.v):
